@@ -559,3 +559,13 @@ Proof.
   - destruct (filt_step f (Tok ty v line) st') as [[outs f'] st'']. rewrite IH; [reflexivity|]. now apply tapp_done in H.
   - now apply IH.
 Qed.
+
+(* a line comment that ends the input (no line break after it) yields no token either *)
+Lemma span_all p w : forallb p w = true -> span p w = (w, []).
+Proof. intros H. rewrite <- (app_nil_r w) at 1. now apply span_app. Qed.
+Lemma line_comment_at_end st line b n : gap_mode (top (ls_stack st)) = true -> forallb not_lf b = true ->
+  lex_run (S (S n)) st line ("/" :: "/" :: b) = LOk [] /\ forall f, lex_filtered (S (S n)) f st line ("/" :: "/" :: b) = TOk [].
+Proof.
+  intros Hm Hb. assert (Hs : span not_lf ("/" :: "/" :: b) = ("/" :: "/" :: b, [])) by (apply span_all; cbn [forallb]; now rewrite Hb).
+  split; [|intros f]; cbn [lex_run lex_filtered]; rewrite (step_line st b Hm), Hs; cbn [snd]; destruct st; reflexivity.
+Qed.
